@@ -43,13 +43,13 @@ def reg(p):
 
 
 reg(Prop('C01', lambda r, i, t: pc.gen_item(r, i, t, 'C01'), pc.eval_C01, 8000, 600000, RULE_COMPUTE, ASSUME_COMPUTE,
-         ['C01_run_partition', 'C01_step_adds_exactly', 'C01_assigned_iff', 'C01_dropped_whole', 'C01_assigned_once', 'C01_default_min_lt', 'C01_default_min_old_iff', 'C01_default_min_old_witness']))
+         ['C01_run_partition', 'C01_step_adds_exactly', 'C01_assigned_iff', 'C01_dropped_whole', 'C01_assigned_once', 'C01_default_min_lt', 'C01_default_min_old_iff', 'C01_default_min_old_witness', 'C01_label_map_refines', 'C01_label_map_domain']))
 reg(Prop('C02', lambda r, i, t: pc.gen_item_C02(r, i, t, 'C02'), pc.eval_C02, 6000, 300000, RULE_COMPUTE, ASSUME_COMPUTE,
          ['C02_arity', 'C02_iteration_is_prefix_order', 'C02_parent_before_child', 'C02_temp_ids_unique', 'C02_final_ids', 'C02_compute_ids', 'C02_compute_arity', 'C02_reachable_wellformed']))
 reg(Prop('C03', lambda r, i, t: pc.gen_item(r, i, t, 'C03'), pc.eval_C03, 6000, 400000, RULE_COMPUTE, ASSUME_COMPUTE,
          ['C03_all_connected', 'C03_roots_closed', 'C03_contour', 'C03_branch_own_le_sub', 'C03_trunk_eq_components', 'C03_compute_all_connected']))
 reg(Prop('C04', lambda r, i, t: pc.gen_item(r, i, t, 'C04'), pc.eval_C04, 8000, 600000, RULE_COMPUTE, ASSUME_COMPUTE,
-         ['C04_new_leaf', 'C04_join_one', 'C04_insignificant_iff', 'C04_branch', 'C04_one_remains', 'C04_none_remains', 'C04_unique_of_distinct', 'C04_minDelta_merge', 'C04_minNpix', 'C04_allTrue', 'C04_seeds_exact', 'C04_sorted_check_sound', 'C04_nodup_check_sound', 'C04_cover_check_sound', 'C04_strict_of_distinct']))
+         ['C04_new_leaf', 'C04_join_one', 'C04_insignificant_iff', 'C04_branch', 'C04_one_remains', 'C04_none_remains', 'C04_unique_of_distinct', 'C04_minDelta_merge', 'C04_minNpix', 'C04_allTrue', 'C04_seeds_exact', 'C04_sorted_check_sound', 'C04_nodup_check_sound', 'C04_cover_check_sound', 'C04_strict_of_distinct', 'C04_label_mechanism_refines', 'C04_adjacent_by_labels', 'C04_ancestor_is_root']))
 reg(Prop('C05', lambda r, i, t: pc.gen_item(r, i, t, 'C05'), pc.eval_C05, 6000, 400000, RULE_COMPUTE, ASSUME_COMPUTE,
          ['C05_parented_leaf_significant', 'C05_meeting_pixel', 'C05_builtin', 'C05_orphan_leaf', 'C05_leaf_peak_regmax', 'C05_leaves_distinct_maxima', 'C05_regmax_has_leaf']))
 reg(Prop('C06', lambda r, i, t: pc.gen_item_C06(r, i, t, 'C06'), pc.eval_C06, 5000, 250000, RULE_COMPUTE, ASSUME_COMPUTE,
@@ -97,7 +97,7 @@ reg(Prop('C14', ph.gen_item_C14, ph.eval_C14, 3000, 100000,
          "histories of 2-10 operations (cache-warming queries, prunes, Newick export, save/load in both formats, plotter "
          "construction) on a seeded computed dendrogram; after every step all observables are compared with the model "
          "(a function of the current forest) and with a dendrogram rebuilt from links, label map and data; non-trivial = a "
-         "prune removed a structure", ASSUME_COMPUTE, ['C14_history_sound', 'C14_level', 'C14_descendants', 'C14_prune_sound', 'C14_prune_resets_all', 'C14_descendants_nodup', 'C14_old_stale_level', 'C14_old_stale_descendants', 'C14_old_stale_newick', 'C14_pix_history_sound', 'C14_get_peak', 'C14_get_npix', 'C14_pix_prune_resets_all', 'C14_merge_keeps_count']))
+         "prune removed a structure", ASSUME_COMPUTE, ['C14_history_sound', 'C14_level', 'C14_descendants', 'C14_prune_sound', 'C14_prune_resets_all', 'C14_descendants_nodup', 'C14_old_stale_level', 'C14_old_stale_descendants', 'C14_old_stale_newick', 'C14_pix_history_sound', 'C14_get_peak', 'C14_get_npix', 'C14_pix_prune_resets_all', 'C14_merge_keeps_count', 'C14_heap_prune_refines', 'C14_heap_pruneAt_refines', 'C14_heap_spec_is_tree_obs', 'C14_compute_establishes_sound']))
 
 import props_analysis as pa  # noqa: E402
 
@@ -130,7 +130,7 @@ reg(Prop('C16', pi.gen_item_C16, pi.eval_C16, 2500, 120000,
 reg(Prop('C17', pi.gen_item_C17, pi.eval_C17, 3000, 200000,
          "arrays in 1-4 dimensions with axes of length 1-6, a random non-empty subset of periodic axes (passed as int or list), cyclic shifts "
          "by 1, n-1, n and a random amount along a periodic axis; contour predicate with an independent adjacency (wrap on declared axes "
-         "only), model correspondence", ASSUME_COMPUTE, ['C17_axis', 'C17_neighbours', 'C17_grid_symmetric', 'C17_shift_automorphism', 'C17_shift_invariance', 'C17_assigned_order_independent', 'C17_trunk_regions_order_independent', 'C17_root_survives_iff', 'C17_K5_witness', 'C17_leaf_count_order_independent']))
+         "only), model correspondence", ASSUME_COMPUTE, ['C17_axis', 'C17_neighbours', 'C17_grid_symmetric', 'C17_shift_automorphism', 'C17_shift_invariance', 'C17_assigned_order_independent', 'C17_trunk_regions_order_independent', 'C17_root_survives_iff', 'C17_K5_witness', 'C17_leaf_count_order_independent', 'C17_padding_cells_inert']))
 reg(Prop('C20', pi.gen_item_C20, pi.eval_C20, 4000, 300000,
          "pairs of dendrograms: same call twice, different min_delta/min_npix, different user criteria, one pixel changed, NaN mask changed, "
          "saved-and-loaded copy, pruned copy, reshaped data, different min_value, non-dendrogram objects; both argument orders",
